@@ -16,11 +16,66 @@ EXPLANATION = (
     "expressions, no `source_size as u32` truncation), fastrand::usize(0..n) is dominated by a non-empty lake, the "
     "segment picker's expect(\"at least one segment\") is dominated by a non-empty sample check in its caller, the "
     "Reservoir::new assert (size >= 16) is dominated by max(16, _). "
-    "Not decided: termination and size for all sources (randomised sampling, arithmetic).")
+    "(termination) every non-iterator loop and explicit panic construct of the builder is in a reviewed inventory "
+    "(tables/c20.json) with its exit conditions; the sampler's fill loop leaves at end of input because a zero read "
+    "resizes the lake to the bytes read, which makes its exit test true. "
+    "Not decided: termination for sources that never end; statistical quality of the sample.")
 ASSUMPTIONS = ["io::Read/Write implementations of the caller terminate", "BinaryHeap::pop removes one element"]
 
 DM = "ruzstd::dictionary"
 SRC = DM + "::create_raw_dict_from_source"
+FREEZE_CONFIGS = ["dict"]
+TABLE = __import__("os").path.join(__import__("os").path.dirname(__import__("os").path.dirname(__import__("os").path.dirname(__import__("os").path.abspath(__file__)))), "tables", "c20.json")
+
+# reviewed termination / totality arguments for every non-iterator loop and explicit panic construct of the builder
+LOOP_REASONS = {
+    "dictionary::create_raw_dict_from_source|while": "epoch loop: one read of the (finite, caller-provided) source per pass, ends when a read returns 0; "
+                                                     "reduction loop: pops one segment per pass and breaks on an empty pool; write loop: pops until the pool is empty",
+    "Reservoir::fill|while": "ends when the lake is full, on a read error, or one pass after end of input: a zero read resizes the lake to "
+                             "exactly the bytes read so far, which makes the exit test true (C20.term.fill-eof)",
+    "Reservoir::fill|loop": "one read of the source per pass; ends when a read returns 0 (finite source; the discard buffer has length 0)",
+}
+PANIC_REASONS = {
+    "cover::compute_epoch_info|assert": "arith: epoch_size = num_kmers / num_epochs, so epoch_size * num_epochs <= num_kmers on the path that asserts",
+    "cover::pick_best_segment|expect": "caller handles the empty sample / empty epoch first (create::non-empty-sample-before-picking)",
+    "cover::score_segment|expect": "total: windows(K) yields slices of exactly K bytes",
+    "dictionary::create_raw_dict_from_source|expect": "env: failures of the caller-provided reader / writer",
+    "frequency::estimate_frequency|assert": "the sample is shorter than one k-mer only if the whole source is, and then no epoch data is left to score",
+    "Reservoir::fill|unwrap": "env: read error of the caller-provided source",
+    "Reservoir::new|assert": "size >= 16 by max(16, _) in the only caller (create::sample-size-at-least-16)",
+}
+
+
+def _builder_fns(ctx):
+    crate = ctx.crate()
+    reach = flow.reachable_fns(crate, [SRC, DM + "::create_raw_dict_from_dir"])
+    return sorted(p for p in reach if "ruzstd::dictionary" in p and "{closure" not in p)
+
+
+def freeze(ctx, cfgs):
+    ctx.cfg = cfgs[0]
+    crate = ctx.crate()
+    fns = _builder_fns(ctx)
+    out = {"functions": fns, "loops": {}, "panics": {}}
+    lps = [x for x in INV.loops(crate, fns) if x["kind"] != "for"]
+    for x in lps:
+        x["fn"] = H.short(x["fn"])
+    for k, n in INV.count_by(lps, "fn", "kind").items():
+        if k not in LOOP_REASONS:
+            raise SystemExit("no reviewed reason for loop group %s" % k)
+        ex = []
+        for it in lps:
+            if "%s|%s" % (it["fn"], it["kind"]) == k:
+                ex += it["exits"] + (["while " + it["cond"]] if it["cond"] else [])
+        out["loops"][k] = {"count": n, "reason": LOOP_REASONS[k], "exits": sorted(ex)}
+    ps = INV.panics(crate, fns)
+    for x in ps:
+        x["fn"] = H.short(x["fn"])
+    for k, n in INV.count_by(ps, "fn", "kind").items():
+        if k not in PANIC_REASONS and not k.endswith("|debug_assert"):
+            raise SystemExit("no reviewed reason for panic group %s" % k)
+        out["panics"][k] = {"count": n, "reason": PANIC_REASONS.get(k, "debug-only")}
+    return out
 
 
 def run(ctx):
@@ -287,4 +342,57 @@ def run(ctx):
         g = [x for x in INV.panics(crate, [DM + "::reservoir::Reservoir::new"])]
         ctx.check(len(g) == 1 and g[0]["text"].startswith(("if !(size >= 16)", "if !(16 <= size)", "if (size < 16)")), RK, "Reservoir::new::assert", nb["file"], "the only assert is size >= 16 (established by the caller)")
     ctx.guard(RK, "risky", risky)
+
+    # ---- termination: every loop of the builder is a reviewed one, and the sampler's fill loop has its exit argument
+    RT = "C20.term"
+
+    def term():
+        import json
+        import os
+        if not os.path.exists(TABLE):
+            ctx.undecided(RT, "table", "", "tables/c20.json missing")
+            return
+        T = json.load(open(TABLE))
+        fns = _builder_fns(ctx)
+        known = set(T.get("functions") or ())
+        new = {f for f in fns if f not in known}
+        inl = {f for f in new if (crate.hir.get(f) or {}).get("inlined_everywhere")}
+        own = INV.owners(crate, fns, new)
+        own_hir = {f: o for f, o in own.items() if f not in inl}
+        lps = [x for x in INV.reattribute(INV.loops(crate, fns), own_hir) if x["kind"] != "for"]
+        for x in lps:
+            x["fn"] = H.short(x["fn"])
+        INV.compare_counts(ctx, RT + ".inventory.loops", "non-iterator loop(s) in the dictionary builder", lps, T["loops"], ("fn", "kind"))
+        INV.compare_loop_exits(ctx, RT + ".inventory.loops", lps, T["loops"])
+        ctx.floor(RT + ".inventory.loops", len(lps), 5, "non-iterator loops found")
+        ps = INV.reattribute(INV.panics(crate, fns), own_hir)
+        for x in ps:
+            x["fn"] = H.short(x["fn"])
+        INV.compare_counts(ctx, RT + ".inventory.panics", "explicit panic construct(s) in the dictionary builder", ps, T["panics"], ("fn", "kind"))
+        ctx.floor(RT + ".inventory.panics", len(ps), 9, "explicit panic constructs found")
+        # the fill loop: end of input must make the exit test true
+        fb = ctx.hir(DM + "::reservoir::Reservoir::fill")
+        fix = hq.Index(fb)
+        c = fix.canon
+        wl = [x for x in hq.find(fb["body"], lambda x: x.get("k") == "While")]
+        ok = len(wl) == 1
+        obs = {}
+        if ok:
+            lp = wl[0]
+            exits = INV._loop_exits(fix, lp)
+            accs = [x for x in hq.find(lp["body"], lambda x: x.get("k") == "AssignOp" and x["op"] == "+=" and hq.peel(x["l"]).get("k") == "Local")]
+            acc = c(accs[0]["l"]) if len(accs) == 1 else None
+            nread = c(accs[0]["r"]) if len(accs) == 1 else None
+            full = "break if (%s == alloc::vec::Vec::len(self.lake))" % acc
+            rs = [x for x in hq.find(lp["body"], lambda x: x.get("k") == "MethodCall" and x["name"] == "resize" and c(x["recv"]) == "self.lake")]
+            eof_exit = [e for e in exits if e.startswith(("break if", "return if")) and ("(0 == %s)" % nread) in e]
+            resized = len(rs) == 1 and c(rs[0]["args"][0]) == acc and ("(0 == %s)" % nread) in dom.conds(fix, rs[0])
+            ok = acc is not None and full in exits and (resized or bool(eof_exit)) and \
+                "Read::read(" in hq.Canon(fb, force=True)(accs[0]["r"])
+            obs = {"exits": exits, "accumulator": acc, "resize-on-eof": resized, "exit-on-eof": eof_exit}
+        ctx.check(ok, RT + ".fill-eof", "Reservoir::fill::eof-makes-exit-condition-true", fb["file"],
+                  "the fill loop ends when total == lake.len(); at end of input (a read of 0) the lake must be *resized* to the total "
+                  "read so far (truncate cannot grow it when short reads overshot) or the loop must be left directly — otherwise "
+                  "the exhausted source is polled forever", observed=obs)
+    ctx.guard(RT, "term", term)
     ctx.floor(RK, len([o for o in ctx.obs if o.rule == RK and o.cfg == ctx.cfg]), 11, "risky-operation obligations")
